@@ -205,6 +205,19 @@ class DN:
     def __rmatmul__(self, o):
         return DN.lift(o) @ self
 
+    # comparisons look at the primal only (piecewise-constant: no tangent)
+    def __gt__(self, o):
+        return self.p > (o.p if isinstance(o, DN) else o)
+
+    def __lt__(self, o):
+        return self.p < (o.p if isinstance(o, DN) else o)
+
+    def __ge__(self, o):
+        return self.p >= (o.p if isinstance(o, DN) else o)
+
+    def __le__(self, o):
+        return self.p <= (o.p if isinstance(o, DN) else o)
+
     def sum(self, axis=None):
         from .jnp import sum as jsum
 
